@@ -233,6 +233,8 @@ def c01(ctx):
             "instant, followed by a read; one history per key; non-trivial = two operations on the key overlap in time and one of them writes; "
             "distinct = distinct event sequences")
     design = [("DMapKeyMC", "DMapKey_quick.cfg" if quick else "DMapKey_thorough.cfg", {"timeout": 1500})]
+    # the design as built, with read repair, is not linearizable: TLC's counterexample is known finding D23
+    vlib.design_expect_violation(ctx, "DMapKeyMC", "DMapKey_rr.cfg", "Linearizable", "D23", name="DMapKey-readrepair")
     return reg_run(ctx, "TestC01", "c01.ndjson", "c01.summary.json",
                    {"VERIF_ROUNDS": 8 if quick else 150, "VERIF_CONTENTION": 150 if quick else 3000}, design, rule, "per-key linearizability",
                    tags_of=c01_tags)
@@ -250,10 +252,11 @@ def entry_tags(head, evs, line):
 def c07(ctx):
     quick = ctx.tier == "quick"
     rule = ("2-4 concurrent callers x 4-9 Incr/Decr/IncrByFloat/GetPut calls on one key per kind, every caller on a random entry path "
-            "(or all on the same one), N=3, R in {1,2}, plus a final Get; non-trivial = two calls on the key overlap in time; "
+            "(or all on the same one), N=3, R in {1,2}, plus a final Get; every second round callers are delayed at the point between their read and their write (atomic.read); non-trivial = two calls on the key overlap in time; "
             "IncrByFloat deltas are dyadic so the expected sum is exact")
+    vlib.design_expect_violation(ctx, "AtomicSpecMC", "AtomicSpec_old.cfg", "NoLostUpdate", "D14 (the design before the repair)", name="AtomicSpec-old")
     return reg_run(ctx, "TestC07", "c07.ndjson", "c07.summary.json", {"VERIF_ROUNDS": 12 if quick else 300},
-                   [], rule, "atomic read-modify-write", tags_of=entry_tags)
+                   [("AtomicSpecMC", "AtomicSpec.cfg", {}), ("AtomicSpecMC", "AtomicSpec_getput.cfg", {})], rule, "atomic read-modify-write", tags_of=entry_tags)
 
 
 def ttl_tags(head, evs, line):
@@ -296,10 +299,14 @@ def c08(ctx):
                         "it must not return before its deadline minus 5 ms (timer granularity)"]
     rule = ("per key 2-3 competing lockers on random entry paths (embedded on any member, cluster client, raw RESP), with/without timeout "
             "(150/300 ms), waiter deadlines 100/250/500 ms, then hold+unlock, lease+unlock, expiry + stale token unlock/lease, double unlock; "
-            "forged tokens over RESP; a late comer after every timeout; non-trivial = two calls on the key overlap in time")
+            "forged tokens over RESP; a late comer after every timeout; expiry races: the holder's Unlock / Lease is held by a gate at the point "
+            "between its token check and its effect (unlock.checked / lease.checked) until the lock has timed out and a competitor has taken it, "
+            "then a third client tries - the schedule of TLC's counterexample for LockSpec_old.cfg; non-trivial = two calls on the key overlap in time")
+    # the two-step Unlock/Lease of the code as found violates mutual exclusion (D25, repaired); the repaired design does not
+    vlib.design_expect_violation(ctx, "LockSpec", "LockSpec_old.cfg", "MutualExclusion", "D25 (the design before the repair)", name="LockSpec-old")
     return reg_run(ctx, "TestC08", "c08.ndjson", "c08.summary.json",
-                   {"VERIF_ROUNDS": 2 if quick else 30, "VERIF_PER_BATCH": 20 if quick else 30},
-                   [], rule, "distributed lock", tags_of=ttl_tags)
+                   {"VERIF_ROUNDS": 2 if quick else 30, "VERIF_PER_BATCH": 20 if quick else 30, "VERIF_RACES": 2 if quick else 25},
+                   [("LockSpec", "LockSpec.cfg", {})], rule, "distributed lock", tags_of=ttl_tags)
 
 
 @register("C15")
